@@ -11,6 +11,11 @@ for n in names:
     if not os.path.isfile(os.path.join(d, "patch.diff")):
         continue
     pid = n.split("_")[0]
+    try:
+        if "status" in json.load(open(os.path.join(d, "meta.json"))).get("rebased_after_fix_697888f", {}):
+            print((n, pid, "obsolete on the current tree: record kept")); continue
+    except Exception:
+        pass
     ids = RELATED.get(pid, [pid])
     if subprocess.run(["git", "-C", "/repo", "diff", "--quiet"]).returncode != 0:
         print("/repo dirty"); sys.exit(2)
